@@ -2,4 +2,4 @@ From FV Require Import Common.ExtractTypes Slab.SlabModel.
 From Coq Require Extraction.
 From Coq Require Import ExtrOcamlBasic.
 Extraction "../build/extract/slab_model.ml" types_witness init step get_size_of map_len digest b2s s2b
-  max_bucket_size mapped cfg_ok op_policy_ok op_api_ok.
+  max_bucket_size mapped cfg_ok op_policy_ok op_api_ok churn_fast churn_class.
